@@ -168,7 +168,7 @@ print(json.dumps({"osdd": len(tab), "bad": bad, "bad_standard_forms": bad_sf, "l
     if r['bad'] or r['lis_bad']:
         out['violation'] = 'table entries with zero / non-finite scale: %s %s' % (r['bad'][:5], r['lis_bad'][:5])
         out['replay'] = '# %s\nimport sys; print(%r); sys.exit(1)\n' % (out['violation'], out['violation'])
-    return [out, _array_standin(tier, seed)]
+    return [out, _array_standin(tier, seed), _history_standin(tier, seed)]
 
 
 def _array_standin(tier, seed):
@@ -219,3 +219,74 @@ if bad:
     return standin.run('array-conversion-equals-scalar-conversion', 'bounded: convert_array / convert_array_inplace on float64, float32, int64, int32 and '
                        'int16 arrays against scalar convert of each element, random unit pairs of the OSDD table',
                        '%d arrays of 1..6 values' % n, code)
+
+
+def _history_standin(tier, seed):
+    """LIS EngVal: what a conversion returns depends only on the CURRENT value and units, whatever was done to the object
+    before (earlier conversions, in-place arithmetic, comparisons).  A whole-history statement: the per-function contracts
+    state it through frame conditions (getInUnits modifies nothing), but an edit that adds state the contracts' object kind
+    does not know leaves the verifier's subset (exit 3), so this bounded stand-in runs operation sequences."""
+    from pyvc import standin
+    n = 300 if tier == 'quick' else 6000
+    code = r'''
+from TotalDepth.LIS.core import Units as LU, EngVal as EVM
+rnd = random.Random(%d)
+cats = []
+for cat in LU.unitCategories():
+    us = LU.retUnitConvertCategory(cat).units()
+    if len(us) >= 2:
+        cats.append(us)
+bad, cases = [], 0
+for it in range(%d):
+    us = rnd.choice(cats)
+    u0 = rnd.choice(us)
+    val = rnd.choice([0.0, 1.0, -2.5, 20.0, 300.0, 1000.0, 1234.5])
+    ev = EVM.EngVal(val, u0)
+    mval, muom = val, u0              # the model: just the current value and units
+    hist = [('new', val, repr(u0))]
+    for step in range(rnd.randint(2, 7)):
+        op = rnd.choice(['get', 'get', 'iadd', 'isub', 'imul', 'idiv', 'convert', 'cmp', 'new', 'set'])
+        u = rnd.choice(us)
+        k = rnd.choice([0.5, 2.0, 10.0, 500.0])
+        try:
+            if op == 'get':
+                got, want = ev.getInUnits(u), (mval if u == muom else LU.convert(mval, muom, u))
+            elif op == 'new':
+                ne = ev.newEngValInUnits(u)
+                got, want = (ne.value, ne.uom), ((mval if u == muom else LU.convert(mval, muom, u)), u)
+            elif op == 'cmp':
+                other = EVM.EngVal(k, u)
+                got, want = (other > ev, other == ev), (k > (mval if u == muom else LU.convert(mval, muom, u)), k == (mval if u == muom else LU.convert(mval, muom, u)))
+            elif op == 'convert':
+                ev.convert(u)
+                if u != muom:
+                    mval, muom = LU.convert(mval, muom, u), u
+                got, want = (ev.value, ev.uom), (mval, muom)
+            elif op == 'set':
+                ev.value = k
+                mval = k
+                got = want = None
+            else:
+                if op == 'iadd':
+                    ev += k; mval = mval + k
+                elif op == 'isub':
+                    ev -= k; mval = mval - k
+                elif op == 'imul':
+                    ev *= k; mval = mval * k
+                else:
+                    ev /= k; mval = mval / k
+                got, want = (ev.value, ev.uom), (mval, muom)
+        except Exception as e:
+            got, want = 'exception %%r' %% (e,), 'no exception'
+        hist.append((op, repr(u), k))
+        cases += 1
+        if got != want:
+            if len(bad) < 3:
+                bad.append({'history': hist, 'got': repr(got), 'want': repr(want)})
+            break
+print(json.dumps({'cases': cases, 'bad': bad}))
+if bad:
+    sys.exit(1)
+''' % (seed, n)
+    return standin.run('engval-history-independence', 'bounded: random operation sequences on a LIS EngVal (conversions, in-place arithmetic, assignment, '
+                       'comparisons) against a stateless model (current value and units only), units of one category', '%d sequences of 2..7 operations' % n, code)
